@@ -645,6 +645,10 @@ class Interp:
         if isinstance(v, Unknown):
             v.note(self, st)
             return sym.fresh(STR, 'formatted_unknown')      # unknown state formatted into a string: an arbitrary string
+        if isinstance(v, (PyRef, Obj, Model, Closure, ExcClass, Bound)) or not isinstance(v, (SV, str, bytes, int, float, bool, tuple, type(None))):
+            return sym.fresh(STR, 'formatted_object')       # a container / object rendered into a message: an arbitrary string
+        if v is None or isinstance(v, (bool, tuple, float)):
+            return repr(v) if conversion == 114 and not spec and not isinstance(v, tuple) else (str(v) if conversion in (-1, 115) and not spec and not isinstance(v, tuple) else sym.fresh(STR, 'formatted_value'))
         if conversion not in (-1, 115) or spec:
             # !r or format specs: an opaque but deterministic function of the value
             f = self.uf(f'fmt_{conversion}_{spec}', self.ty_of(v), STR)
